@@ -148,6 +148,105 @@ def r1_offer_table(ctx: Context) -> None:
     ctx.check(all(norm(r.value) == out for r in rets), "C18.R1", "TaskGraph.get_schedulable_tasks|returns the collected list", loc(fn), "ok", "returns something else")
 
 
+NONNEG_SUFFIX = ("remaining_time", ".runtime")
+
+
+def _lower_bounds(e: ast.AST, env=None) -> List[lin.Lin]:
+    """Linear forms each of which is a lower bound of the expression (max() gives one per argument)."""
+    if isinstance(e, ast.Call) and isinstance(e.func, ast.Name) and e.func.id == "max" and len(e.args) >= 2 and not e.keywords:
+        out: List[lin.Lin] = []
+        for a in e.args:
+            out += _lower_bounds(a, env)
+        return out
+    if isinstance(e, ast.BinOp) and isinstance(e.op, ast.Add):
+        return [a + b for a in _lower_bounds(e.left, env) for b in _lower_bounds(e.right, env)]
+    return [lin.lin_of(e, env)]
+
+
+def _at_least(l: lin.Lin, base: str) -> bool:
+    """l >= base + (non-negative durations)."""
+    d = l - lin.Lin({base: 1})
+    return d.const >= 0 and all(c > 0 and k.endswith(NONNEG_SUFFIX) for k, c in d.terms.items())
+
+
+def r3_estimates_not_early(ctx: Context) -> None:
+    ctx.rule("C18.R3", "completion-time estimates that gate the offer of not-yet-released descendants are lower bounds "
+                       "that cannot lie in the past: an unfinished task completes no earlier than now + its remaining/"
+                       "slowest runtime, a descendant no earlier than its parent's estimate + its own runtime, and an "
+                       "estimate is only ever raised")
+    tg = ctx.repo.mod(TASKS).cls("TaskGraph")
+    fn = method(tg, "get_schedulable_tasks")
+    now = "time"
+    if now not in [a.arg for a in fn.args.args]:
+        raise AnalysisError("get_schedulable_tasks: parameter `time` not found")
+    g = cfgmod.build(fn)
+    table = None
+    stores = []
+    for n in ast.walk(fn):
+        if isinstance(n, ast.Assign) and len(n.targets) == 1 and isinstance(n.targets[0], ast.Subscript) \
+                and isinstance(n.targets[0].value, ast.Name) and "completion_time" in n.targets[0].value.id:
+            table = n.targets[0].value.id
+            stores.append(n)
+    ctx.floor("C18.R3", "stores to the completion-time estimate table", len(stores), 5)
+    first_loop = next((x for x in fn.body if isinstance(x, ast.For) and any(st in list(ast.walk(x)) for st in stores)), None)
+    if first_loop is None:
+        raise AnalysisError("estimation loop over the materialised tasks not found")
+    tv = norm(first_loop.target)
+    n_direct = 0
+    for st in stores:
+        inside_first = any(x is st for x in ast.walk(first_loop))
+        sn = g.node_of(st)
+        if inside_first:
+            n_direct += 1
+            states: Set[str] = set()
+            retract = None
+            for t in g.nodes:
+                if t.kind != "test":
+                    continue
+                if g.edge_dominates(t, "T", sn) and f"{tv}.state" in norm(t.ast):
+                    states |= {x.attr for x in ast.walk(t.ast) if isinstance(x, ast.Attribute) and isinstance(x.value, ast.Name) and x.value.id == "TaskState"}
+                if norm(t.ast) == "retract_schedules":
+                    retract = "T" if g.edge_dominates(t, "T", sn) else ("F" if g.edge_dominates(t, "F", sn) else None)
+            key = f"TaskGraph.get_schedulable_tasks|estimate for {'/'.join(sorted(states)) or '?'}" + (f" (retract={retract})" if retract else "")
+            if states == {"COMPLETED"}:
+                ctx.check(norm(st.value) == f"{tv}.completion_time", "C18.R3", key, loc(st), "the recorded completion time",
+                          f"a completed task's estimate is `{norm(st.value)}`")
+                continue
+            lbs = _lower_bounds(st.value)
+            ok = any(_at_least(l, now) for l in lbs)
+            if not ok and states == {"SCHEDULED"} and retract == "F":
+                # a SCHEDULED task's expected start is not in the past: its placement event starts or re-times it when due
+                ok = any(_at_least(l, f"{tv}.expected_start_time") for l in lbs)
+            ctx.check(ok, "C18.R3", key, loc(st), "estimate >= now + remaining/slowest runtime",
+                      f"the estimated completion of a {'/'.join(sorted(states))} task is `{norm(st.value)[:90]}`, which is not bounded "
+                      f"below by `{now}` + its remaining time: a task that has been waiting gets an estimate in the past, so its "
+                      "VIRTUAL children pass the horizon test and are offered before their predecessor has even started")
+        else:
+            # propagation: value is a local whose every definition keeps it >= parent estimate + own runtime; guarded update
+            v = st.value
+            if not isinstance(v, ast.Name):
+                ctx.violation("C18.R3", "TaskGraph.get_schedulable_tasks|propagated estimate is a local", loc(st), f"`{norm(v)[:60]}`")
+                continue
+            parent_est = [a.targets[0].id for a in ast.walk(fn) if isinstance(a, ast.Assign) and isinstance(a.targets[0], ast.Name)
+                          and isinstance(a.value, ast.Subscript) and isinstance(a.value.value, ast.Name) and a.value.value.id == table]
+            defs = [a for a in ast.walk(fn) if isinstance(a, ast.Assign) and isinstance(a.targets[0], ast.Name) and a.targets[0].id == v.id]
+            ok = bool(defs) and bool(parent_est)
+            for d in defs:
+                lbs = _lower_bounds(d.value)
+                ok = ok and any(l == lin.Lin({v.id: 1}) or any(_at_least(l, pe) for pe in parent_est) for l in lbs)
+            ctx.check(ok, "C18.R3", "TaskGraph.get_schedulable_tasks|descendant estimate >= parent estimate + own runtime", loc(st),
+                      "every definition is such a lower bound",
+                      f"`{v.id}` can be lower than the parent's estimated completion plus the child's runtime: {[norm(d.value)[:70] for d in defs]}")
+            ctl = [lin.formula(t.ast) for t in g.nodes if t.kind == "test" and g.edge_dominates(t, "T", sn)]
+            child = norm(st.targets[0].slice)
+            want = lin.formula(ast.parse(f"{child} not in {table} or {v.id} > {table}[{child}]", mode="eval").body)
+            want2 = lin.formula(ast.parse(f"{child} not in {table} or {v.id} >= {table}[{child}]", mode="eval").body)
+            okg = any(lin.entails(f, want2) for f in ctl)
+            ctx.check(okg, "C18.R3", "TaskGraph.get_schedulable_tasks|an estimate is only raised", loc(st), "guarded by `new > old` or first estimate",
+                      "an existing estimate can be overwritten by a smaller one: descendants are offered too early")
+    ctx.floor("C18.R3", "estimates assigned by state", n_direct, 5)
+
+
 def r2_monotone(ctx: Context) -> None:
     ctx.rule("C18.R2", "lookahead occurs only on the larger side of <=; release_taskgraphs only positively; neither in the estimation phase")
     fn, lp, chain = _selection(ctx)
@@ -252,9 +351,10 @@ def r2b_parameter_agreement(ctx: Context) -> None:
 
 
 def run(ctx: Context) -> None:
-    r1_offer_table(ctx)
-    r2_monotone(ctx)
-    r2b_parameter_agreement(ctx)
-    c02.r4_release_discipline(ctx)
-    c07.r1_one_of_n(ctx)
-    c06.r2_r3_r4_relation(ctx)
+    ctx.isolate(r1_offer_table)
+    ctx.isolate(r2_monotone)
+    ctx.isolate(r3_estimates_not_early)
+    ctx.isolate(r2b_parameter_agreement)
+    ctx.isolate(c02.r4_release_discipline)
+    ctx.isolate(c07.r1_one_of_n)
+    ctx.isolate(c06.r2_r3_r4_relation)
